@@ -243,6 +243,44 @@ pub fn index_case(c: &IndexCase, obs: &mut Obs) -> PResult {
     }
 }
 
+/// populations beyond 2^53 (where n - 1 is not a double): the ranks stay in range whatever the proportion
+#[derive(Clone, Debug, Serialize, Deserialize)]
+pub struct HugeCase {
+    pub n: u64,
+    pub q: X,
+    pub conf: Conf,
+}
+pub fn huge_case(c: &HugeCase, obs: &mut Obs) -> PResult {
+    let (n, q) = (c.n, c.q.0);
+    obs.evals(2);
+    match call(|| quantile::Stats::new(n as usize).index(q)) {
+        Out::Ok(i) => {
+            ensure!((i as u64) < n, "C03/index/out_of_range", "Stats::new({n}).index({q:e}) = {i}: not a 0-based rank of a population of {n}");
+            // (the exact last rank is not required at p = 1: n itself is not a double here, and the reading of
+            // floor(p n) is only defined up to the spacing of doubles at n, as for every other rank)
+            // within the f64 reading of floor(q n) by the spacing of doubles at n
+            let want = (q * n as f64).floor();
+            ensure!((i as f64 - want).abs() <= n as f64 * 4.0 * f64::EPSILON + 2.0, "C03/index/value", "Stats::new({n}).index({q:e}) = {i}, floor(q n) = {want:e}");
+        }
+        Out::Err(e) => return crate::engine::fail("C03/index/wrong_error", format!("Stats::new({n}).index({q:e}) = Err({e:?}) for a proportion in [0,1]")),
+        Out::Panic(p) => return crate::engine::fail("C03/index/panic", format!("Stats::new({n}).index({q:e}) panicked: {p}")),
+    }
+    for entry in 0..2 {
+        let out = call(|| if entry == 0 { quantile::ci_indices(c.conf.get(), n as usize, q) } else { quantile::Stats::new(n as usize).ci(c.conf.get(), q) });
+        match out {
+            Out::Ok(i) => {
+                let (lo, hi) = (i.left().copied(), i.right().copied());
+                ensure!(lo.map(|l| (l as u64) < n).unwrap_or(true) && hi.map(|h| (h as u64) < n).unwrap_or(true) && lo.zip(hi).map(|(l, h)| l <= h).unwrap_or(true), "C03/ci_indices/out_of_range", "ranks {i:?} for a population of {n} (q = {q:e}, {:?})", c.conf);
+                obs.class("huge/ok");
+            }
+            Out::Err(_) => obs.class("huge/rejected"),
+            Out::Panic(p) => return crate::engine::fail("C03/ci_indices/panic", format!("n={n}, q={q:e}, {:?}: {p}", c.conf)),
+        }
+    }
+    obs.nontrivial(&("huge", n, q.to_bits(), c.conf.kind, c.conf.l().to_bits()));
+    Ok(())
+}
+
 // elements and order independence -------------------------------------------------------------------
 
 #[derive(Clone, Debug, Serialize, Deserialize)]
@@ -527,6 +565,21 @@ pub fn run(run: &mut Run) {
         });
         run.exhaustive_parts.push("sample sizes 0..=8 x 14 admissible / inadmissible quantiles x 3 kinds through every data front-end against ci_indices".into());
     }
+    // populations beyond 2^53
+    {
+        let mut cases = vec![];
+        for n in [(1u64 << 53) + 1, (1u64 << 53) + 4, 1u64 << 54, (1u64 << 54) + 2, 1u64 << 60, (1u64 << 63) + 12345, u64::MAX, u64::MAX - 1, (1u64 << 53) - 1, 1u64 << 53] {
+            for q in [1.0, 1.0 - f64::EPSILON / 2.0, 1.0 - f64::EPSILON, 0.999999, 0.5, 0.25, 1e-3, 0.0, 5e-324] {
+                for (kind, l) in [(0u8, 0.95), (2, 0.95), (1, 0.9), (0, 0.5)] {
+                    cases.push(HugeCase { n, q: X(q), conf: Conf::new(kind, l) });
+                }
+            }
+        }
+        for c in &cases {
+            run.case("huge_population", c, huge_case);
+        }
+        run.require_class("huge/ok");
+    }
     // random multisets with ties, random permutations
     let s = (prop::collection::vec(0u8..14, 4..=63), prop::collection::vec(any::<u16>(), 63), crate::gen::conf(), 1u32..1000, 0usize..5)
         .prop_map(|(codes, perm, conf, qm, ty)| ElemCase { ty: TYPES[ty].into(), codes: crate::gen::permute(&codes, &perm), conf, q: X(qm as f64 / 1000.0) });
@@ -590,6 +643,7 @@ pub fn replay(sub: &str, v: &Value, obs: &mut Obs) -> Option<PResult> {
     Some(match sub {
         "history" => crate::props::history::case(&de(v), obs),
         "rank" | "rank_random" => rank_case(&de(v), obs),
+        "huge_population" => huge_case(&de(v), obs),
         "index" => index_case(&de(v), obs),
         "elements" | "elements_random" | "elements_tiny" | "elements_nearly_sorted" => elem_case(&de(v), obs),
         "elements_large" => Ok(()),
